@@ -2138,6 +2138,19 @@ class TrackFragmentHeaderBox(FullBox):
             rv["base_data_offset"] = parent.find_atom('moof').position
         return rv
 
+    def get_base_data_offset(self) -> int:
+        """
+        The position that the offsets in this track fragment are relative to.
+        Unless the box carries an explicit offset, that is the current position
+        of the moof box, which moves when boxes in front of it are inserted
+        or removed.
+        """
+        if (
+                (self.flags & self.base_data_offset_present) != 0 and
+                self.base_data_offset is not None):
+            return self.base_data_offset
+        return self.find_atom('moof').position
+
     def encode_box_fields(self, dest):
         if self.base_data_offset is None:
             self.base_data_offset = self.find_atom('moof').position
@@ -2687,7 +2700,7 @@ class SampleAuxiliaryInformationOffsetsBox(FullBox):
         tfhd = self.parent.find_child('tfhd')
         base_data_offset = None
         if tfhd is not None:
-            base_data_offset = tfhd.base_data_offset
+            base_data_offset = tfhd.get_base_data_offset()
         if base_data_offset is None:
             moof = self.find_atom('moof')
             base_data_offset = moof.position
@@ -2857,15 +2870,16 @@ class TrackFragmentRunBox(FullBox):
             return
         mdat_sample_start = moof.position + moof.size + mdat.header_size
 
-        first_sample_pos: int = moof.traf.tfhd.base_data_offset
+        base_data_offset: int = moof.traf.tfhd.get_base_data_offset()
+        first_sample_pos: int = base_data_offset
         if (self.flags & self.data_offset_present) != 0:
             first_sample_pos += self.data_offset
         if first_sample_pos != mdat_sample_start:
             self.options.log.debug(
                 'rewriting trun data_offset from %d to %d',
                 self.data_offset,
-                mdat_sample_start - moof.traf.tfhd.base_data_offset)
-            self.data_offset = mdat_sample_start - moof.traf.tfhd.base_data_offset
+                mdat_sample_start - base_data_offset)
+            self.data_offset = mdat_sample_start - base_data_offset
             assert self.data_offset >= 0
             cur = dest.tell()
             if (self.flags & self.data_offset_present) == 0:
